@@ -60,27 +60,29 @@ def main():
     finally:
         sh('git -C /repo worktree remove --force %s' % wt)
         shutil.rmtree(wt, ignore_errors=True)
-    # run the registered checks against /repo with the change applied
-    rc, out = sh('git -C /repo status --porcelain')
-    if out.strip():
-        print('refusing: /repo working tree not clean:\n' + out)
-        return 2
+    # run the registered checks against a scratch worktree with the change applied (VERIF_REPO), so that /repo
+    # itself is never touched and several seeds can be examined concurrently
     result['checks'] = {}
-    rc, out = sh('git -C /repo apply %s || git -C /repo apply --3way %s' % (patch, patch))
+    wt2 = '/tmp/seedcheck_run_%d' % os.getpid()
+    outdir = '/tmp/seedcheck_out_%d' % os.getpid()
+    sh('git -C /repo worktree add -q %s HEAD' % wt2)
     try:
+        rc, out = sh('git apply %s || git apply --3way %s' % (patch, patch), cwd=wt2)
         if rc != 0:
             result['checks']['apply_error'] = out[-500:]
         else:
+            env2 = dict(os.environ, VERIF_REPO=wt2, VERIF_OUT=outdir)
             for c in checks:
                 t0 = time.time()
-                rc2, out2 = sh('./run %s %s' % (c, tier), cwd=V, timeout=7200)
+                rc2, out2 = sh('./run %s %s' % (c, tier), cwd=V, env=env2, timeout=7200)
                 lines = [l for l in out2.split('\n') if l.startswith(('VIOLATION', 'KNOWN-FINDING', 'HARNESS-ERROR', c + ' '))]
                 result['checks'][c] = {'exit': rc2, 'violations': sum(1 for l in lines if l.startswith('VIOLATION')),
                                        'detected': rc2 == 1, 'lines': lines[:6], 'wall_s': round(time.time() - t0, 1)}
-                result['ran'].append('git -C /repo apply patch.diff; ./run %s %s; git -C /repo checkout -- .' % (c, tier))
+                result['ran'].append('scratch worktree of /repo HEAD + patch.diff; VERIF_REPO=<worktree> ./run %s %s' % (c, tier))
     finally:
-        sh('git -C /repo reset -q HEAD -- . ; git -C /repo checkout -- . && git -C /repo clean -fdq pyrtl')
-        sh('rm -rf %s/replays' % V)
+        sh('git -C /repo worktree remove --force %s' % wt2)
+        shutil.rmtree(wt2, ignore_errors=True)
+        shutil.rmtree(outdir, ignore_errors=True)
     valid = (result.get('demo_passes_without_change') and result.get('demo_fails_with_change')
              and result.get('tests_pass_with_change') and result.get('patch_applies'))
     result['valid_seed'] = bool(valid)
